@@ -515,7 +515,8 @@ func judgeC13(c *Check, p *plan.Plan, pr *ProcResult) *Judged {
 		if oo.Rec == nil || ref.Rec == nil {
 			continue
 		}
-		if oo.Rec.Digest() != ref.Rec.Digest() {
+		// (a variant that itself has LogFlags 0 says nothing about flags: clauses 2 and 3 judge it)
+		if eff.Flags != 0 && oo.Rec.Digest() != ref.Rec.Digest() {
 			fields := oo.Rec.Diff(ref.Rec)
 			det := fmt.Sprintf("LogFlags=%d, sink %q, %d clock stalls: result differs from the LogFlags=0 reference in %v (%s)", eff.Flags, p.Sink, len(p.Schedule.Stalls), fields, describeOp(p, oo.Task, oo.Op))
 			for _, f := range fields {
